@@ -2,6 +2,7 @@ package main
 
 import (
 	"fmt"
+	"math/rand"
 	"strconv"
 	"strings"
 	"sync"
@@ -9,6 +10,7 @@ import (
 
 	"github.com/google/uuid"
 	"go.dedis.ch/onet/v3"
+	"go.dedis.ch/onet/v3/network"
 	"onetverif/harness/fix"
 	"onetverif/harness/h"
 )
@@ -64,6 +66,37 @@ func (f *c04fixture) tree(root bool, k int) c04tree {
 	f.cl.Overlay(ct.srv).RegisterTree(ct.t)
 	f.trees[key] = ct
 	return ct
+}
+
+// unknownTree builds the shape of tree(root, k) over a re-ordered roster (another roster id, hence
+// another tree id): node i is still hosted by server i, but no server has seen this tree.
+func (f *c04fixture) unknownTree(root bool, k int, r *rand.Rand) c04tree {
+	perm := r.Perm(len(f.cl.Roster.List))
+	var sis []*network.ServerIdentity
+	pos := map[int]int{}
+	for i, j := range perm {
+		sis = append(sis, f.cl.Roster.List[j])
+		pos[j] = i
+	}
+	ro := onet.NewRoster(sis)
+	if root {
+		parent := []int{-1}
+		member := []int{pos[0]}
+		for i := 0; i < k; i++ {
+			parent = append(parent, 0)
+			member = append(member, pos[i+1])
+		}
+		t, nodes := fix.BuildTree(ro, parent, member)
+		return c04tree{t, nodes[0], 0}
+	}
+	parent := []int{-1, 0}
+	member := []int{pos[0], pos[1]}
+	for i := 0; i < k; i++ {
+		parent = append(parent, 1)
+		member = append(member, pos[i+2])
+	}
+	t, nodes := fix.BuildTree(ro, parent, member)
+	return c04tree{t, nodes[1], 1}
 }
 
 // freshCopy builds the tree of tree(root, k) again: an equal tree, other objects.
